@@ -549,6 +549,15 @@ def conc_str(v):
     """python str/bytes of a fully concrete sequence, else None"""
     if not isinstance(v, VSeq) or v.kind == 'list':
         return None
+    if v.items is not None:
+        out = []
+        for e in v.items:
+            if not isinstance(e, int):
+                e = conc_int(e)
+                if e is None:
+                    return None
+            out.append(e)
+        return bytes(out) if v.kind == 'bytes' else ''.join(map(chr, out))
     c = v.clen()
     if c is None:
         return None
